@@ -344,12 +344,27 @@ for _k, _v in MORE_TIE.items():
 
 # statements added after an independent audit of the Props modules (vacuous / trivial ones replaced)
 MORE_THM = {
+ "C01": " FROM OPEN ON: whatever open / open_hash answered ok, any sequence of reads hands out a prefix of the content file as it "
+        "was at open and check() is ok only if the bytes pass the check of the requested address / found entry "
+        "(read_stream_sound_from_open, _from_openHash); a keyed read that is ok under any fault plan met no fault and returns "
+        "bytes passing the check of the entry the bucket holds (read_fault_sound).",
+ "C08": " A by-address write with a wrong declared size: exactly the size error, every lookup as before, the store changed at "
+        "exactly the address of the bytes fed, healthy, tmp clean (putHash_wrong_size_total).",
+ "C13": " remove_fully under any fault plan, then retried: the retry ends exactly where an uninterrupted removal ends "
+        "(removeFully_fault_retry).",
+ "C14": " The abandon program as a whole (open, any writes, drop), from any filesystem on which it could be opened: nothing at "
+        "its temp path, the rest of tmp as it was, nothing else changed but directories (abandon_leaves_no_tmp).",
+ "C18": " Missing content answers exactly the I/O not-found error, a missing key the entry-not-found error (never an I/O error), "
+        "both with the filesystem unchanged; unchecked copy onto an existing file replaces its bytes, unchecked hard link onto "
+        "anything existing answers already-exists and changes nothing (C18x).",
  "C03": " PROGRAM LEVEL: every call of a whole writer (writeStream / write / write_hash) that can create or fill a file in the "
         "content area is a rename onto that path (writeStream_only_rename_publishes).",
  "C06": " For cacache's codec: a record the reader reports is spelled out by a line `hex(sha256 json) TAB json` of the file "
-        "(no_forgery_cacache, decLine_spells).",
+        "(no_forgery_cacache, decLine_spells). A destroyed newline fuses two records into a line with two TABs that does not "
+        "decode, and the bucket loses exactly these two (fused_line_undecodable, destroyed_newline_exact).",
  "C07": " No finished insertion is lost: in the serial history the last operation on the key is that insertion or a later "
-        "one, and lookups answer accordingly (no_finished_insert_lost).",
+        "one, and lookups answer accordingly (no_finished_insert_lost). exists_hash next to any whole writer answers as before or "
+        "as after it; two by-address writers of any data serialize with no collision hypothesis.",
  "C09": " Under every fault plan a full removal changes only the key's bucket and the found entry's content file, and only by "
         "removing them (removeFully_changes_only, removeFully_only_removes).",
  "C15": " PROGRAM LEVEL: every path argument of find / insert / delete for a key is its bucket path or that path's parent; "
